@@ -24,9 +24,9 @@ From Coq Require Import List Sorted.
 From SigM Require Import Base QueryLife EvalIdx.
 From SigP Require Import BaseProofs QueryLifeProofs EvalIdxProofs.
 From Coq Require String.
-From SigM Require LockTrace.
+From SigM Require LockTrace LockOrder.
 From SigG Require GenLocks.
-From SigP Require LockTraceProofs GenLocksCheck GenLocksProofs.
+From SigP Require LockTraceProofs LockOrderProofs GenLocksCheck GenLocksProofs.
 Import ListNotations.
 Open Scope nat_scope.
 
@@ -384,3 +384,20 @@ Print Assumptions C17_lock_discipline.
 Theorem C17_lock_discipline_covers_cancel_and_delete :
   forallb GenLocksProofs.lk_covered GenLocksProofs.lk_c17_functions = true.
 Proof. exact GenLocksProofs.lk_c17_functions_covered. Qed.
+
+(* ---- lock ORDER: at every acquisition on every trace of an unlisted function, each mutex already held precedes the
+   acquired one in GenLocksCheck.lk_order_graph (all nestings of all unlisted functions); that graph carries a ranking that
+   increases along every edge (checked on the regenerated skeletons on every run), so goroutines running those functions
+   cannot wait for each other in a ring.  (The only cycle of the unchanged tree, rqsLock <-> arqMapLock, is closed by
+   RestartQuery, a listed exception.) *)
+Theorem C17_lock_acquisitions_follow_one_order : forall (name : String.string) (s : LockTrace.stm),
+  In (name, s) GenLocks.lk_all -> GenLocksCheck.allowed name GenLocksCheck.lk_exceptions = [] ->
+  forall t1 k l t2 o h, LockTrace.exec s (t1 ++ (k, l) :: t2) o -> LockOrder.is_acquire k = true ->
+  LockTrace.mrun [] t1 = inl h -> LockOrder.justified GenLocksCheck.lk_order_graph (h, l).
+Proof. exact GenLocksProofs.lk_acquisitions_follow_the_order. Qed.
+Print Assumptions C17_lock_acquisitions_follow_one_order.
+
+Theorem C17_no_ring_of_waiting_goroutines : forall ws : list LockOrder.waiter,
+  Forall (LockOrder.justified GenLocksCheck.lk_order_graph) ws -> Forall (fun w => fst w <> []) ws -> ~ LockOrder.ring ws.
+Proof. exact GenLocksProofs.lk_no_ring. Qed.
+Print Assumptions C17_no_ring_of_waiting_goroutines.
